@@ -148,8 +148,8 @@ class C03(Property):
         fuel = C1_TICKS_PER_CHAR * (n + 16)
         tok_limit = 2 * nchars + 4
         reqs = [{'op': 'lex', 'src': text, 'mode': mode, 'k': off, 'limit': tok_limit + 2, 'fuel': fuel},
-                {'op': 'parse', 'src': text, 'mode': mode, 'k': off, 'fuel': fuel},
-                {'op': 'parse_tokens', 'src': text, 'mode': mode, 'k': off, 'fuel': fuel}]
+                {'op': 'parse', 'src': text, 'mode': mode, 'k': off, 'fuel': fuel, 'brief': True},
+                {'op': 'parse_tokens', 'src': text, 'mode': mode, 'k': off, 'fuel': fuel, 'brief': True}]
         rs = sut.batch(reqs)
         bset = None
 
